@@ -144,7 +144,14 @@ def fix_constraint_cholesky(ZTx, s_chol, d, P, P_inorder, U, tolerance):
             cholesky_funcs.
     """
     q = P * (s_chol <= tolerance)
-    alpha = np.min(d[q] / (d[q] - s_chol[q]))
+    step = d[q] - s_chol[q]
+
+    # An entry with d == s_chol (a variable which has just entered the passive set with d = 0 and whose
+    # passive-set solution is exactly 0) cannot move and is removed from the passive set below. Its ratio
+    # 0 / 0 must not turn alpha, and through it every entry of d, into NaN: use a zero step for it.
+    ratio = np.zeros(step.shape[0])
+    np.divide(d[q], step, out=ratio, where=step != 0)
+    alpha = np.min(ratio)
 
     # set d as close to s as possible while maintaining non-negativity
     d = d + alpha * (s_chol - d)
